@@ -235,9 +235,13 @@ func checkPages(sc *Scenario, w, l *OpResult, active []int) []Issue {
 	wi := indexWords(e)
 	// first main-flow word and page of every word
 	firstMain := make([]string, n)
+	hasContent := make([]bool, n) // anything but margin-box / repeating words
 	pageOf := map[string]int{}
 	for p, ws := range w.PageWords {
 		for _, x := range ws {
+			if !isMargin(x) && !wi.repeat[x] {
+				hasContent[p] = true
+			}
 			if _, ok := pageOf[x]; !ok {
 				pageOf[x] = p
 			}
@@ -312,7 +316,7 @@ func checkPages(sc *Scenario, w, l *OpResult, active []int) []Issue {
 					wantW, wantH, kind = s[0], s[1], "first"
 				}
 			}
-			if firstMain[p] == "" && p > 0 && p < n-1 {
+			if !hasContent[p] && p > 0 && p < n-1 {
 				if s, ok := e.PageSizes["blank"]; ok && e.Geometry {
 					wantW, wantH, kind = s[0], s[1], "blank"
 				}
